@@ -84,6 +84,11 @@ _G = {}
 
 
 def _work(task):
+    if task[0] == "custom":
+        try:
+            return dict(custom=_G["mod"].custom_checks(task[1], task[3], task[2]))
+        except BaseException as e:  # pylint: disable=broad-except
+            return dict(scenario="custom", part=None, crashed=True, error="".join(traceback.format_exception(type(e), e, e.__traceback__))[-3000:])
     sc_idx, part, deadline, seed = task
     sc = _G["scenarios"][sc_idx]
     now = time.time()
@@ -158,8 +163,10 @@ def main(prop, tier, seed):
     budget = getattr(mod, "BUDGET", {}).get(tier, 100 if tier == "quick" else 600)
     budget = float(os.environ.get("VERIF_BUDGET", budget))
     deadline = t0 + budget
-    _G["scenarios"], _G["known"] = scenarios, known
+    _G["scenarios"], _G["known"], _G["mod"] = scenarios, known, mod
     tasks = []
+    if hasattr(mod, "custom_checks"):
+        tasks.append(("custom", tier, deadline, seed))
     for i, sc in enumerate(scenarios):
         for part in sc.partitions:
             tasks.append((i, part, deadline, seed))
@@ -175,9 +182,10 @@ def main(prop, tier, seed):
         ctx = mp.get_context("fork")
         with ctx.Pool(min(nproc, len(tasks)), maxtasksperchild=4) as pool:
             for r in pool.imap_unordered(_work, tasks, chunksize=1):
-                results.append(r)
-    if hasattr(mod, "custom_checks"):
-        custom = mod.custom_checks(tier, seed, deadline)
+                if "custom" in r:
+                    custom = r["custom"]
+                else:
+                    results.append(r)
 
     # ---- aggregate ------------------------------------------------------------------------------
     tot = dict(paths=0, confirmed=0, nontrivial=0, unknown=0, ignored=0, refuted=0, spurious=0,
